@@ -33,6 +33,8 @@ fn jobs(plan: &Plan) -> Vec<Job> {
     for h in 0..t.pick(300, 20000, 1) {
         v.push(standalone("index-containers", "bare", h, bare));
     }
+    v.extend(entry_jobs(plan, "C16", "chain", t.pick(32, 300, 1), |d| super::chain::eligible(d, super::chain::Fin::Serde)));
+    v.extend(stack_jobs(plan, "C16", "stack-chain", t.pick(6, 50, 0), |d| super::chain::eligible_stack(d, super::chain::Fin::Serde)));
     v
 }
 
@@ -51,10 +53,23 @@ fn required(plan: &Plan) -> Vec<String> {
     for c in ["empty-region", "stride:Striding", "stride:Saturated", "optimized:spilled", "list:u64", "columns>=2"] {
         v.push(format!("state:{c}"));
     }
+    for d in plan.reg {
+        if super::chain::eligible(d, super::chain::Fin::Serde) {
+            v.push(format!("chain:{}", d.label));
+        }
+        if super::chain::eligible_stack(d, super::chain::Fin::Serde) {
+            v.push(format!("stack-chain:{}", d.label));
+        }
+    }
+    v.push("next-generation".into());
+    v.extend(super::chain::required_pairs(super::chain::Fin::Serde));
     v
 }
 
 pub fn run<E: Entry>(ctx: &mut Ctx) {
+    if ctx.what == "chain" {
+        return super::chain::run::<E>(ctx, super::chain::Fin::Serde, "copy-continuation");
+    }
     let h = ctx.hist_no;
     let kind = kind_for(h);
     let n1 = if h % 7 == 0 { 0 } else { ctx.rng.range(1, if ctx.tier == Tier::Miri { 5 } else { 30 }) };
@@ -156,6 +171,9 @@ pub fn run<E: Entry>(ctx: &mut Ctx) {
 }
 
 pub fn run_stack<E: Entry, S: IdxC<Idx<E>>>(ctx: &mut Ctx) {
+    if ctx.what == "stack-chain" {
+        return super::chain::run_stack::<E, S>(ctx, super::chain::Fin::Serde, "stack-copy-continuation");
+    }
     let kind = kind_for(ctx.hist_no / 3);
     let n1 = ctx.rng.range(0, 60);
     let pool: Vec<E::V> = <E::V as Val>::gen_run(&mut ctx.rng, Dom::new(kind).json(), n1.max(4));
